@@ -24,6 +24,23 @@ def prio(p):
     return "(%s->node->info.rem_score + %s->score)" % (p, p)
 
 
+def _acc(fn, stores_):
+    """the value a local holds after its stores `v = a; v += b; ...` in source order, as a polynomial
+    (`v = a + b` reads the same)"""
+    from .. import lin
+    tot = None
+    for s_ in stores_:
+        if s_["op"] == "=":
+            tot = lin.poly(fn, s_["rhs"], subst=False)
+        elif s_["op"] == "+=" and tot is not None:
+            tot = lin.p_add(tot, lin.poly(fn, s_["rhs"], subst=False))
+        elif s_["op"] == "-=" and tot is not None:
+            tot = lin.p_add(tot, lin.poly(fn, s_["rhs"], subst=False), -1)
+        else:
+            return None
+    return tot
+
+
 def run(ctx):
     P = ctx.P
     lf = {f.name: f for f in P.functions(L) if f.file.endswith(L)}
@@ -81,24 +98,56 @@ def run(ctx):
     npi = [s for s in st.get("nbest->n_path", [])]
     ctx.check(p2, sorted((s["op"], ins.canon(s["rhs"], subst=False) if s["rhs"] is not None else "") for s in npi) == [("++", ""), ("=", "500")], key(ins, "n_path"), ins.where(ins.root), "n_path bookkeeping changed")
     nx = lf["astar_next"]
-    pops = [s for s in paths.field_stores(nx, "astar_search_s", "path_list")]
-    ctx.check(p2, len(pops) == 1 and nx.canon(pops[0]["rhs"], subst=False) == "nbest->path_list->next", key(nx, "pop-head"), nx.where(nx.root), "astar_next does not pop the head of the agenda")
-    tops = [s for s in paths.field_stores(nx, "astar_search_s", "top")]
-    ctx.check(p2, len(tops) == 1 and nx.canon(tops[0]["rhs"], subst=False) == "nbest->path_list", key(nx, "top"), nx.where(nx.root), "the path handed out is not the head of the agenda")
-    dec = [s for s in paths.field_stores(nx, "astar_search_s", "n_path")]
-    ctx.check(p2, len(dec) == 1 and dec[0]["op"] == "--" and pops and paths.paired(nx, dec[0]["node"], pops[0]["node"]), key(nx, "n_path--"), nx.where(nx.root), "popping is not paired with n_path--")
-    tl = [s for s in paths.field_stores(nx, "astar_search_s", "path_tail")]
-    ctx.check(p2, len(tl) == 1 and paths.is_const(nx, tl[0]["rhs"], 0) and paths.guarded(nx, tl[0]["node"], lambda f, c, pol: paths.rel(f, c, pol, subst=False) in (("nbest->path_tail", "==", "nbest->top"), ("nbest->top", "==", "nbest->path_tail"))), key(nx, "tail-reset"), nx.where(nx.root), "tail pointer is not cleared when the last path is popped")
+    # popping, path by path over values (symx.run_paths): the path handed out is the head, the agenda
+    # continues with its successor, the count goes down once, and a popped tail clears the tail pointer
+    from .. import symx, lin
+    okpop = oktop = okdec = oktail = True
+    npop = 0
+    for pt in symx.run_paths(nx, P):
+        evs = [ev_ for ev_ in pt.events if ev_[0] == "store" and ev_[1] in ("nbest->top", "nbest->path_list", "nbest->n_path", "nbest->path_tail")]
+        for k_, ev_ in enumerate(evs):
+            v_ = symx.plain(lin.p_str(ev_[2]))
+            if ev_[1] == "nbest->path_list":
+                npop += 1
+                okpop = okpop and v_ in ("nbest->path_list->next", "nbest->top->next")
+                # the head was taken before the agenda moved on, and the count follows
+                prior = [x for x in evs[:k_] if x[1] == "nbest->top"]
+                oktop = oktop and bool(prior) and symx.plain(lin.p_str(prior[-1][2])) == "nbest->path_list"
+                nxt = [x for x in evs[k_:] if x[1] == "nbest->n_path"]
+                okdec = okdec and bool(nxt) and symx.plain(lin.p_str(nxt[0][2])) == "-1 + nbest->n_path"
+            elif ev_[1] == "nbest->top":
+                oktop = oktop and v_ == "nbest->path_list"
+            elif ev_[1] == "nbest->path_tail":
+                i_ = pt.events.index(ev_)
+                oktail = oktail and v_ == "0" and any(x[0] == "branch" and x[1][0] == "==" and "nbest->path_tail" in symx.plain(x[1][1:]) and x[2] for x in pt.events[:i_])
+        decs = [x for x in evs if x[1] == "nbest->n_path"]
+        okdec = okdec and len(decs) == len([x for x in evs if x[1] == "nbest->path_list"])
+    ctx.check(p2, okpop and npop >= 1, key(nx, "pop-head"), nx.where(nx.root), "astar_next does not pop the head of the agenda")
+    ctx.check(p2, oktop and npop >= 1, key(nx, "top"), nx.where(nx.root), "the path handed out is not the head of the agenda")
+    ctx.check(p2, okdec and npop >= 1, key(nx, "n_path--"), nx.where(nx.root), "popping is not paired with n_path--")
+    ctx.check(p2, oktail, key(nx, "tail"), nx.where(nx.root), "the tail pointer is cleared other than when the popped path was the tail")
     # writers of agenda links
     for g in lf.values():
         for s in paths.stores(g):
             if (s["rec"] == "astar_search_s" and s["field"] in ("path_list", "path_tail")) or (s["rec"] == "latpath_s" and s["field"] == "next"):
                 ctx.check(p2, g.name in ("path_insert", "astar_next", "astar_search_start"), key(g, "writer:" + s["path"]), g.where(s["node"]), "agenda link `%s` is written outside path_insert / astar_next" % s["path"])
     # completion / extension in astar_next
-    rets = [r for r in nx.find("Return") if nx.canon(nx.ch(r)[0], subst=False) == "nbest->top"]
-    ctx.check(p2, len(rets) == 1, key(nx, "return-top"), nx.where(nx.root), "complete hypothesis is not the popped path")
-    pe = nx.calls("path_extend")
-    ctx.check(p2, len(pe) == 1 and nx.canon(nx.args(pe[0])[1], subst=False) == "nbest->top", key(nx, "extend-top"), nx.where(nx.root), "the popped path is not the one extended")
+    okret = okext = True
+    nret = next_ = 0
+    for pt in symx.run_paths(nx, P):
+        tops_ = [ev_ for ev_ in pt.events if ev_[0] == "store" and ev_[1] == "nbest->top"]
+        last_top = symx.plain(lin.p_str(tops_[-1][2])) if tops_ else None
+        if pt.ret is not None and lin.p_str(pt.ret) != "0":
+            nret += 1
+            # what is handed out is the path popped last (as a value: through nbest->top or a local copy)
+            okret = okret and symx.plain(lin.p_str(pt.ret)) in ("nbest->top", last_top) and last_top == "nbest->path_list"
+        for i_, ev_ in enumerate(pt.events):
+            if ev_[0] == "call" and ev_[1] == "path_extend":
+                next_ += 1
+                prior = [x for x in pt.events[:i_] if x[0] == "store" and x[1] == "nbest->top"]
+                okext = okext and len(ev_[2]) == 2 and bool(prior) and symx.plain(ev_[2][1]) in ("nbest->top", symx.plain(lin.p_str(prior[-1][2])))
+    ctx.check(p2, okret and nret >= 1, key(nx, "return-top"), nx.where(nx.root), "complete hypothesis is not the popped path")
+    ctx.check(p2, okext and next_ >= 1, key(nx, "extend-top"), nx.where(nx.root), "the popped path is not the one extended")
     # additive path score
     ns = {s["path"]: ext.canon(s["rhs"], subst=False) for s in paths.stores(ext) if s["path"].startswith("newpath->")}
     want = {"newpath->node": "x->link->to", "newpath->parent": "path", "newpath->score": "(path->score + x->link->ascr)"}
@@ -132,7 +181,7 @@ def run(ctx):
     ok, why = merge(bp, "x->link->path_scr", "score", co=("x->link->best_prev", "link"))
     ctx.check(p3, ok, key(bp, "path_scr"), bp.where(bp.root), why)
     sc = [s for s in paths.stores(bp) if s["path"] == "score"]
-    ctx.check(p3, len(sc) == 1 and bp.canon(sc[0]["rhs"], subst=False) == "(link->path_scr + x->link->ascr)", key(bp, "candidate"), bp.where(bp.root), "candidate path score is %s" % [bp.canon(s["rhs"], subst=False) for s in sc])
+    ctx.check(p3, _acc(bp, sc) == lin.p_add(lin.p_atom("link->path_scr"), lin.p_atom("x->link->ascr")), key(bp, "candidate"), bp.where(bp.root), "candidate path score is %s" % [bp.canon(s["rhs"], subst=False) for s in sc])
     ok, why = merge(bp, "bestescr", "x->link->path_scr", co=("bestend", "x->link"))
     ctx.check(p3, ok, key(bp, "bestend"), bp.where(bp.root), why)
     rets = [bp.canon(bp.ch(r)[0], subst=False) for r in bp.find("Return")]
@@ -145,8 +194,9 @@ def run(ctx):
     br = lf["best_rem_score"]
     ok, why = merge(br, "bestscore", "score")
     ctx.check(p3, ok, key(br, "max"), br.where(br.root), why)
-    sc = [(s["op"], br.canon(s["rhs"], subst=False)) for s in paths.stores(br) if s["path"] == "score"]
-    ctx.check(p3, sc == [("=", "best_rem_score(nbest, x->link->to)"), ("+=", "x->link->ascr")], key(br, "candidate"), br.where(br.root), "heuristic candidate is %s" % sc)
+    scs = [s for s in paths.stores(br) if s["path"] == "score"]
+    sc = [(s["op"], br.canon(s["rhs"], subst=False)) for s in scs]
+    ctx.check(p3, _acc(br, scs) == lin.p_add(lin.p_atom("best_rem_score(nbest, x->link->to)"), lin.p_atom("x->link->ascr")), key(br, "candidate"), br.where(br.root), "heuristic candidate is %s" % sc)
     memo = [s for s in paths.stores(br) if s["path"] == "from->info.rem_score"]
     ctx.check(p3, len(memo) == 1 and br.canon(memo[0]["rhs"], subst=False) == "bestscore", key(br, "memo"), br.where(br.root), "heuristic is not memoised")
     known = [r for r in br.find("Return") if paths.guarded(br, r, lambda f, c, pol: paths.rel(f, c, pol, subst=False) == ("from->info.rem_score", "<=", "0"))]
